@@ -1691,7 +1691,7 @@ class TransformChainsTopology(Topology):
     def _sample(self, ielems, coords, weights=None):
         index = numpy.argsort(ielems, kind='stable')
         sorted_ielems = ielems[index]
-        offsets = [0, *(sorted_ielems[:-1] != sorted_ielems[1:]).nonzero()[0]+1, len(index)]
+        offsets = [0, *(sorted_ielems[:-1] != sorted_ielems[1:]).nonzero()[0]+1, len(index)] if len(index) else [0]
 
         unique_ielems = sorted_ielems[offsets[:-1]]
         transforms = self.transforms[unique_ielems],
